@@ -24,7 +24,7 @@ KINDS = ['flip', 'truncate', 'append', 'swap', 'replay', 'copy_new', 'delete']
 
 def budget(tier):
     if tier == 'quick':
-        return {'shards': 16, 'examples': 60, 'wall': 240}
+        return {'shards': 16, 'examples': 200, 'wall': 240}
     return {'shards': 16, 'examples': 10000, 'wall': 2400}
 
 
